@@ -28,6 +28,10 @@ func evoScope(p string) bool { return p == core.Mod+"/pkg/dsl" }
 
 func evolutionFiles(f string) bool { return strings.Contains(f, "/pkg/dsl/evolution") }
 
+func backendFiles(f string) bool {
+	return !strings.HasSuffix(f, "_test.go") && (strings.Contains(f, "/internal/cpp/") || strings.Contains(f, "/internal/python/") || strings.Contains(f, "/internal/matlab/") || strings.Contains(f, "/internal/ndjsoncommon/") || strings.Contains(f, "/internal/formatting/") || strings.Contains(f, "/internal/iocommon/"))
+}
+
 func dslValidationFiles(f string) bool {
 	return strings.Contains(f, "/pkg/dsl/validation") || strings.HasSuffix(f, "/pkg/dsl/yaml.go")
 }
@@ -41,7 +45,7 @@ func init() {
 	reg("C17", ruleEmptyBatchGuard, ruleStepFraming)
 	reg("C15", ruleStateMachineSchemaCheck, ruleMarshalCoverage)
 	reg("C03", ruleEmittedSymbols, rulePlan)
-	reg("C08", ruleEmittedSymbols)
+	reg("C08", ruleEmittedSymbols, ruleSwitchDefaults(backendFiles, "P4", 25), ruleReservedTables, ruleIdentifierHelpers, ruleDependenciesFirst, ruleOptionGating, ruleUniquenessVsMangling)
 	reg("C19", ruleCommonTypeMap, ruleEmitterSiblings, ruleParenthesisation, ruleOperatorTokens, rulePromotionNotBypassed)
 	reg("C07", ruleStateMachine)
 	reg("C02", ruleJsonKinds, ruleUnionTagDecision, ruleKindTests, ruleOptionalFieldSymmetry)
